@@ -457,7 +457,10 @@ func baseUnpack(L *LState) int {
 }
 
 func baseXPCall(L *LState) int {
-	fn := L.CheckFunction(1)
+	// any value may be called: an object with __call runs its handler, anything
+	// else fails inside the protected call (and so reaches the error function)
+	L.CheckAny(1)
+	fn := L.Get(1)
 	errfunc := L.CheckFunction(2)
 
 	top := L.GetTop()
